@@ -39,6 +39,10 @@ def run(run):
         from rules import sendrules
         sendrules.delivery_never_panics(run, f, "O12.7")
         statics_inventory(run, f)
+        # "dead-letter accounting is not corrupted": every sender that loses its message to the dead actor accounts for it
+        # exactly once (C13 rule O13.1: one record call per failing branch, with the reason of that failure)
+        from rules import c13
+        c13.pairing(run, f, sp)
         if "deadlock-detection" in f.features:
             lock_discipline(run, f)
             # the wait-for graph must not be left with residue by an actor that panics (incl. the
